@@ -143,6 +143,9 @@ SIMPLE_CALLS = {
 }
 CMD_CALLS = {"check_run_command": "raise", "run_command": "ignore"}
 RELEVANT_NAMES = set(SIMPLE_CALLS) | set(CMD_CALLS)
+# the same methods called on a receiver with another name (`aggregator.process_results()` after a local was renamed)
+# are relevant too: such a statement must never be skipped silently (relevant_simple then reports it, the site is stale)
+RELEVANT_METHODS = {k.rsplit(".", 1)[1] for k in SIMPLE_CALLS if "." in k}
 RELEVANT_TARGETS = {"is_complete", "missing_jobs"}
 
 
@@ -154,6 +157,8 @@ def _is_relevant(st):
     """does the statement (with everything nested in it) contain something the model is about?"""
     for c in _calls(st):
         if src(c.func) in RELEVANT_NAMES:
+            return True
+        if isinstance(c.func, ast.Attribute) and c.func.attr in RELEVANT_METHODS:
             return True
     for n in ast.walk(st):
         if isinstance(n, ast.Assign):
@@ -458,8 +463,32 @@ def _program(name, doc, steps):
     return f"/-- {doc} -/\ndef {name} : List Step := [\n{body}]"
 
 
+def _canonical(fn, qual):
+    """`fn` with the locals that SIMPLE_CALLS / the alias checks mention renamed to the names used there, identified by
+    what they are bound to (`aggregator = ResultsAggregator.load(…)` is `agg`): renaming a local is not a change."""
+    ren = {}
+    for st in walk_stmts(fn):
+        if not (isinstance(st, ast.Assign) and len(st.targets) == 1 and isinstance(st.targets[0], ast.Name)):
+            continue
+        v, role = st.value, None
+        if isinstance(v, ast.Call):
+            f = src(v.func)
+            if f == "JobRunner":
+                role = "mgr" if qual == "run_jobs" else "runner"
+            elif f == "ResultsAggregator.load":
+                role = "agg"
+            elif src(v) == "self._config.get_default_submission_group()":
+                role = "group"
+        if role is not None:
+            name = st.targets[0].id
+            if ren.get(name, role) != role:
+                raise SiteError(f"{qual}: local {name} plays two roles")
+            ren[name] = role
+    return rename_locals(fn, ren)
+
+
 def _walk(rel, qual):
-    fn = find_def(rel, qual)
+    fn = _canonical(find_def(rel, qual), qual)
     w = _Walker(qual)
     w.block(fn.body, [], False, last_of_function=True)
     return fn, w
